@@ -57,7 +57,7 @@ PROPS = {
               " The key sets of the parts of a composite are combined by union and nothing else (no `^`, `&`, `-` of part results, no `a.keys(o) or b.keys(o)`)." " A template's placeholders are read off self.template by each operation (a scan kept from construction goes stale when the text is replaced, and with it the reported keys)." " The parts of an expression are told apart by identity alone (two Options that print alike, Value(1) == Value(True)): a part collapsed into a look-alike loses its keys, its validation, its requests and its value.",
               "whether stored values equal uncached evaluation for concrete graphs; prefix relations between run-time key strings "
               "beyond the one case the WithOptions filter decides (a forced pre-set section the caller's section is merged into, F13, repaired); history effects",
-              floors={"R-KC": 30, "R-OA": 80}, filters={"R-LM": ["tells the parts"], "R-TK": ["iterates find_template_keys"], "R-SH": ["evaluates nothing but its switch"], "R-OP": [":iterates"], "R-WI": [":keys:"]}),
+              floors={"R-KC": 30, "R-OA": 80}, filters={"R-FP": ["options-only-via-keys-and-lookup", "sorted-iteration", "json-list-serialiser", "returns-dump", "no-nondeterministic-source", "every-reported-key-serialised", "a sequence value keeps its order"], "R-LM": ["tells the parts"], "R-TK": ["iterates find_template_keys"], "R-SH": ["evaluates nothing but its switch"], "R-OP": [":iterates"], "R-WI": [":keys:"]}),
     "C02": _p(["R-FP", "R-PO", "R-OA", "R-DC", "R-EO", "R-CP", "R-MC", "R-CW", "R-SK", "R-IS", "R-AI", "R-OC", "R-TK", "R-RE", "R-CC", "R-ON"],
               "Decides the structural conditions for effective memoization: the fingerprint depends on keys(options) only (extra or "
               "re-ordered top-level keys cannot split entries); WithOptions.keys removes keys fixed by the pre-set dictionary; "
@@ -199,7 +199,7 @@ PROPS = {
               " No object's overload table is re-bound from outside; no module-level or thread-local state beyond the three guarded tables."
               " `the value belonging to their own options`: the entries of one cache are told apart by the fingerprint alone — it covers every key the selection reads (coalesce keys the member it evaluates, validated first), serialised by dotted lookup, part key sets combined by union." " No library function makes a runtime and enters it later (a runtime derived while a step is evaluated carries that thread's handler table; entered lazily by whichever thread consumes the result, it replaces that thread's handlers)." " (Round 9) Concurrent evaluations of a cached dataset are kept apart by the fingerprint, which is built from keys(): a pipeline that omits the keys of its earlier steps makes two threads with different options share one entry (R-KC on Pipeline).",
               "behaviour under interleavings — no schedule is explored (most of the property)",
-              filters={"R-KC": ["Pipeline"], "R-HI": ["enters a runtime of its own", "reads the current runtime"], "R-SO": ["Coalesce"], "R-MC": ["key-is-fingerprint"]}),
+              filters={"R-FP": ["options-only-via-keys-and-lookup", "sorted-iteration", "json-list-serialiser", "returns-dump", "no-nondeterministic-source", "every-reported-key-serialised", "a sequence value keeps its order"], "R-KC": ["Pipeline"], "R-HI": ["enters a runtime of its own", "reads the current runtime"], "R-SO": ["Coalesce"], "R-MC": ["key-is-fingerprint"]}),
     "C16": _p(["R-VP", "R-SH", "R-DH", "R-L1", "R-DC", "R-RQ", "R-HI", "R-SK", "R-CP", "R-GS", "R-AI", "R-VO", "R-MX", "R-UW", "R-HK", "R-KU", "R-LM", "R-MC", "R-SO", "R-VA"],
               "Decides: no data flow from a switch, an effect result or a log result into any returned value; the three cache "
               "handlers test both switch spellings first and delegate to disabled twins that touch no backend; the effects switch "
@@ -221,7 +221,7 @@ PROPS = {
               " Every dataset has its own cache unless handed one; reprs (embedded in CacheGetFailure) are total: no ordering of aliases, no unguarded __name__."
               " A backend that follows the contract is addressed by the fingerprint: every reported key is serialised by dotted lookup, and Option.keys follows templated values into the values (not the keys) of a mapping — otherwise a well-behaved backend hands back a value stored for other options." " The parts of an expression are told apart by identity alone (two Options that print alike, Value(1) == Value(True)): a part collapsed into a look-alike loses its keys, its validation, its requests and its value." " (Round 9) A step that compares by identity instead of equality makes a value depend on whether an operand came out of the cache (the stored object) or was recomputed (R-HO on eq/ne).",
               "backends that violate the Cache contract in other ways (other exception types)",
-              filters={"R-HO": ["labrea.functions.eq:", "labrea.functions.ne:"], "R-LM": ["tells the parts"], "R-DK": ["fingerprint"], "R-RK": ["every recognised kind"], "R-MC": ["MemoryCache.get:a miss"], "R-SO": ["Coalesce"]}),
+              filters={"R-FP": ["options-only-via-keys-and-lookup", "sorted-iteration", "json-list-serialiser", "returns-dump", "no-nondeterministic-source", "every-reported-key-serialised", "a sequence value keeps its order"], "R-HO": ["labrea.functions.eq:", "labrea.functions.ne:"], "R-LM": ["tells the parts"], "R-DK": ["fingerprint"], "R-RK": ["every recognised kind"], "R-MC": ["MemoryCache.get:a miss"], "R-SO": ["Coalesce"]}),
     "C18": _p(["R-WR", "R-RQ", "R-HD", "R-MP", "R-L1", "R-HI", "R-MF", "R-EO", "R-ON", "R-EV", "R-CF", "R-RG", "R-GS", "R-LM", "R-DF", "R-HF"],
               "Decides nearly the whole mechanism: the four ABC hooks replace every op by a request-issuing wrapper and the default "
               "handlers call the saved implementation; nothing else calls the saved implementations; every concrete class defines "
